@@ -29,6 +29,14 @@ def gen_base_scenario(seed, tier="quick"):
     opts = {"natural_fault_prob": 1.0 if natural else 0.0,
             "nr_max": 24 if tier == "thorough" else 16,
             "nrho_max": 12 if tier == "thorough" else 8}
+    if rng.random() < 0.22:
+        from . import apimodel
+        spec = apimodel.gen_api_model(rng, natural=natural, tier=tier)
+        return {"property": PROP, "seed": seed, "tier": tier, "potsim": 1, "model": spec, "route": "api",
+                "fp_kind": rng.choice(["simfile", "simfile", "stdio", "realfile"]), "shared_fp": rng.random() < 0.25,
+                "prepopulate": False, "cli_target_override": False,
+                "instrument": True if not natural else rng.random() < 0.6,
+                "natural": bool(spec["meta"]["natural_fault"]), "subprocess_cli": False, "attempts": [{"k": None}]}
     spec = mg.gen_model(rng, opts)
     target = spec["meta"]["target"]
     r = rng.random()
@@ -62,7 +70,7 @@ def plan_for_k(base, k, N):
     sc = copy.deepcopy(base)
     kind = rng.choice(FAULT_KINDS)
     attempts = [{"k": k, "kind": kind}]
-    if base["model"]["meta"]["binary"] and base["route"] == "object" and rng.random() < 0.3:
+    if base["model"]["meta"]["binary"] and base["route"] in ("object", "api") and rng.random() < 0.3:
         attempts[0]["op"] = "touch"          # the failing evaluation happens while reading .workbook
     r = rng.random()
     if r < 0.35:
@@ -143,7 +151,7 @@ def execute(sc, reference=False):
     sim = Sim(faults=faults, clock=clock)
     sim.record_roles = True
     out = {"attempts": [], "build_error": None}
-    ini = mg.render_ini(spec)
+    ini = None if spec.get("api") else mg.render_ini(spec)
     scratch = tempfile.mkdtemp(prefix="c17-")
     try:
         if sc["route"] == "cli":
@@ -164,11 +172,15 @@ def _exec_object(sc, sim, ini, scratch, attempts, out, binary):
     from atsim.potentials.config import Configuration
     import atsim.potentials
     try:
-        tab = Configuration().read(io.StringIO(ini))
+        if sc["route"] == "api":
+            from .apimodel import ApiTarget
+            tab = ApiTarget(sc["model"], sim, instrument=sc.get("instrument", True))
+        else:
+            tab = Configuration().read(io.StringIO(ini))
     except Exception as e:
         out["build_error"] = "%s: %s" % (type(e).__name__, str(e)[:300])
         return
-    if sc.get("instrument", True):
+    if sc.get("instrument", True) and sc["route"] != "api":
         instrument_tabulation(tab, sim)
     fp_kind = sc.get("fp_kind", "simfile")
     shared = None
@@ -459,7 +471,7 @@ def retry_site_fix(sc, res, violations):
 
 LEVEL = "fault_enumeration"
 QUICK_JOBS = 320
-THOROUGH_JOBS = 2400
+THOROUGH_JOBS = 4000
 RULE = ("one case = (generated model, target, route, crash point k, exception kind, retry plan); models, targets, routes, "
         "grids, exception kinds and retry plans are drawn from the seed; for each model the fault-free write is measured "
         "first (N evaluations) and then quick: first/last/both sides of every function-block boundary + 6 seeded interior k, "
@@ -485,7 +497,7 @@ def child(fn, sc, scratch, timeout=120.0):
 
 
 def scenario_key(sc):
-    return short({"m": sc["model"]["sections"], "r": sc["route"], "a": sc["attempts"], "fp": sc.get("fp_kind"),
+    return short({"m": sc["model"].get("sections") or {k: v for k, v in sc["model"].items() if k != "meta"}, "r": sc["route"], "a": sc["attempts"], "fp": sc.get("fp_kind"),
                   "sh": sc.get("shared_fp"), "pp": sc.get("prepopulate")}, 16)
 
 
@@ -644,7 +656,8 @@ def _sample(sc, res):
     return {"seed": sc["seed"], "target": meta["target"], "route": sc["route"], "nr": meta["nr"], "nrho": meta["nrho"],
             "fp_kind": sc.get("fp_kind"), "natural_fault": meta.get("natural_fault"),
             "attempts_plan": sc["attempts"],
-            "ini": mg.render_ini(sc["model"]),
+            "ini": mg.render_ini(sc["model"]) if not sc["model"].get("api") else None,
+            "api_model": {k: v for k, v in sc["model"].items() if k != "meta"} if sc["model"].get("api") else None,
             "observed": [{"raised": a["raised"], "exit": a["exit"], "n_evals": a["n_evals"], "emitted_bytes": a["delta_len"],
                           "fired": a.get("fired")} for a in (res or {}).get("attempts", [])]}
 
@@ -692,6 +705,10 @@ def shrink_candidates(sc):
             yield c
     # 2. model: drop function entries / whole optional sections
     spec = sc["model"]
+    if spec.get("api"):
+        for c in _shrink_api(sc):
+            yield c
+        return
     for si, s in enumerate(spec["sections"]):
         if s["name"] in mg.FUNCTION_SECTIONS:
             for ei in range(len(s["entries"])):
@@ -728,6 +745,39 @@ def shrink_candidates(sc):
         c["_rescale_k"] = True
         yield c
     # 5. move the crash point to the first evaluation of its function / to 1
+    for a_i, a in enumerate(sc["attempts"]):
+        if a.get("k") and a["k"] > 1:
+            for nk in (1, a["k"] // 2, a["k"] - 1):
+                if 1 <= nk < a["k"]:
+                    c = copy.deepcopy(sc)
+                    c["attempts"][a_i]["k"] = nk
+                    yield c
+
+
+def _shrink_api(sc):
+    spec = sc["model"]
+    const = {"k": "lambda", "name": "const", "p": [1.0]}
+    for nm in ("pairs", "dipole", "quadrupole"):
+        for i in range(len(spec[nm])):
+            c = copy.deepcopy(sc)
+            del c["model"][nm][i]
+            c["_rescale_k"] = True
+            yield c
+    from .apimodel import function_slots, _resolve
+    for path in function_slots(spec):
+        holder, key = _resolve(spec, path)
+        if holder[key] != const and holder[key].get("k") != "failing":
+            c = copy.deepcopy(sc)
+            h2, k2 = _resolve(c["model"], path)
+            h2[k2] = dict(const)
+            yield c
+    for key, small in (("nr", 8 if "DL" in spec["writer"] and "EAM" not in spec["writer"] and "TABEAM" not in spec["writer"] else 4), ("nrho", 3)):
+        if spec[key] > small:
+            c = copy.deepcopy(sc)
+            c["model"][key] = small
+            c["model"]["meta"][key] = small
+            c["_rescale_k"] = True
+            yield c
     for a_i, a in enumerate(sc["attempts"]):
         if a.get("k") and a["k"] > 1:
             for nk in (1, a["k"] // 2, a["k"] - 1):
